@@ -220,7 +220,61 @@ func histProfile(name string, decide []string, quick, thorough int, o histOpts, 
 }
 
 func init() {
-	register(histProfile("C12", []string{"C12"}, 1200, 50000, histOpts{maxNodes: 4, pCanary: 0.4, fancy: []float64{0, 0.3}, faults: true, twoEDS: true, migration: true}, "C12.foreign-listed", "C12.write"))
+	c12 := histProfile("C12", []string{"C12"}, 1200, 50000, histOpts{maxNodes: 4, pCanary: 0.4, fancy: []float64{0, 0.3}, faults: true, twoEDS: true, migration: true}, "C12.foreign-listed", "C12.write")
+	c12gen := c12.Gen
+	c12.Gen = func(r *rand.Rand, tier string, idx int) *World {
+		w := c12gen(r, tier, idx)
+		if idx%6 == 4 && len(w.EDS) == 2 {
+			// two ExtendedDaemonSets of the same name in two namespaces, both with a canary strategy, whose
+			// pods have restarted differently on the nodes: whatever one of them derives from "its" pods
+			// (canary node choice, counters) must not see the other one's
+			w.EDS[1].Name, w.EDS[1].NS = w.EDS[0].Name, "ns2"
+			for len(w.Nodes) < 3 {
+				w.Nodes = append(w.Nodes, &NodeDef{Name: nodeName(len(w.Nodes) + 10)})
+			}
+			for _, e := range w.EDS {
+				if e.Strategy.Canary == nil {
+					e.Strategy.Canary = &CanaryDef{Replicas: "1", Duration: "10m"}
+				}
+				e.Strategy.Canary.AntiAffinityKeys = nil
+				for _, t := range e.Templates {
+					t.Namespace, t.Labels = "", nil
+				}
+			}
+			w.Extra["restartHistory"] = "1"
+		}
+		return w
+	}
+	c12.Body = func(s *Sim) {
+		s.Setup()
+		if s.W.Extra["restartHistory"] == "1" {
+			for _, def := range s.W.EDS {
+				s.bootstrap(def)
+			}
+			for i := 0; i < 2+len(s.W.Nodes); i++ {
+				s.Round(s.rngEnv)
+			}
+			for _, p := range s.Store.Pods() {
+				for n := s.rngEnv.IntN(4); n > 0 && len(p.Status.ContainerStatuses) > 0; n-- {
+					if pp := s.Store.GetPod(p.Namespace, p.Name); pp != nil {
+						s.kRestart(pp, "Error")
+					}
+				}
+				if pp := s.Store.GetPod(p.Namespace, p.Name); pp != nil {
+					s.kSettle(pp)
+				}
+			}
+			s.Stats.NonVacuous["C12.restart-history"]++
+			def := s.W.EDS[s.rngEnv.IntN(2)]
+			s.userSetTemplate(def.NS, def.Name, "B")
+			s.fairRounds(3)
+		}
+		s.Chaos()
+		if !s.W.Cfg.NoQuiesce {
+			s.Quiesce()
+		}
+	}
+	register(c12)
 	register(histProfile("C02", []string{"C02"}, 800, 40000, histOpts{maxNodes: 6, pCanary: 0.5, fancy: []float64{0, 0.3, 0.7}, faults: true, sane: true, c02: true, migration: true, someOverrides: true, neverReady: true}, "C02.converged"))
 }
 
@@ -702,6 +756,13 @@ func bodyC19(s *Sim) {
 	if cmd == "canary-validate" && canaryERS != "" && s.rngEnv.IntN(3) == 0 && e.Annotations[edsv1.ExtendedDaemonSetCanaryValidAnnotationKey] == "" {
 		// left over from an earlier, promoted canary whose replica set is long gone
 		s.userAnnotate(def.NS, def.Name, edsv1.ExtendedDaemonSetCanaryValidAnnotationKey, def.Name+"-gone1")
+		before = s.Store.GetEDS(def.NS, def.Name).DeepCopy()
+	}
+	if (cmd == "canary-pause" || cmd == "canary-unpause") && canaryERS != "" && s.rngEnv.IntN(4) == 0 {
+		// another tool wrote the pause annotation in a spelling the controller does not obey
+		// ("true" and "false" are the only values with a meaning): the commands act as if it was absent
+		s.userAnnotate(def.NS, def.Name, edsv1.ExtendedDaemonSetCanaryPausedAnnotationKey, pick(s.rngEnv, "True", "False", "1", "0", "TRUE", "f"))
+		s.Stats.NonVacuous["C19.non-canonical-annotation"]++
 		before = s.Store.GetEDS(def.NS, def.Name).DeepCopy()
 	}
 	t := s.RunCLI(cmd, key)
